@@ -16,6 +16,7 @@ THEOREMS = [
     "Rtosc.C13.kahn_perm_invariant_state",
     "Rtosc.C13.dependent_port_applied_first",
     "Rtosc.C13.refsOf_not_self",
+    "Rtosc.C13.independent_writes_confluent",
 ]
 HARNESS = dict(C12.HARNESS)
 STATELESS = True
@@ -44,18 +45,22 @@ ASSUMPTIONS = list(C12.ASSUMPTIONS) + [
 ]
 TRUSTED = list(C12.TRUSTED)
 LEVEL_TEXT = ("Lean theorems: Kahn's algorithm as written outputs every message once with every edge's source first "
-              "(any acyclic graph); for applications satisfying App.WF (incl. anc_chain, array_ok), MetaCovers and MetaRanked: "
+              "(any acyclic graph); for applications satisfying App.WF (any acyclic, transitively closed dependency order; "
+              "array elements with constant or preset-dependent defaults), MetaCovers and MetaRanked: "
               "every dependence the application declares between two present lines is a path of edges found by scan_deps, also "
-              "through absent ports; independent lines commute; hence for every permutation of a file satisfying FileOK the "
+              "through absent ports; writes to independent ports are confluent, also when the ports share dependants (a shared "
+              "dependant takes its default from the final state in both orders), so independent lines commute; hence for "
+              "every permutation of a file satisfying FileOK the "
               "loaded state and count are equal (the count clause is trivial: it is the number of lines). The hypotheses hold "
-              "for nine of the fourteen generated applications (evaluated on every run; among them the three with sub-trees "
+              "for all fourteen generated applications (evaluated on every run; among them the three with sub-trees "
               "enabled by a toggle of their own: refsOf reads the `self:` port of every level's table and a path does not "
-              "refer to itself, as in the repaired scan_deps); all fourteen are compared with the "
+              "refer to itself, as in the repaired scan_deps - and the five with rDepends lists naming mutually independent "
+              "ports or preset-dependent array defaults); all fourteen are compared with the "
               "implementation on all permutations of generated savefiles")
 LEVEL_NOTE = ("the port lookup of scan_deps (Ports::apropos / port_of_path) enters as a hypothesis (MetaCovers) that is checked "
-              "per application and by correspondence; see C18. The commutation proof needs anc_chain (disjoint write sets); "
-              "without it (A6-A10: two independent ports with a common dependant) the statement is only tested")
-
+              "per application and by correspondence; see C18. The application's behaviour (change hooks re-apply the defaults "
+              "of all dependants in dependency order, App.setParam) is the modelled precondition of the property, tied to the "
+              "generated applications by correspondence only")
 
 def generate(rng, tier, stats):
     apps = SA.pool()
